@@ -40,6 +40,8 @@ struct Scenario {
     writers: Vec<usize>,
     faults: Vec<(usize, WalFault)>,
     advances: u32,
+    /// a further task asks the actor to shut down gracefully, concurrently with the writers
+    shutdown: bool,
 }
 
 impl Scenario {
@@ -51,14 +53,15 @@ impl Scenario {
     }
     fn json(&self, schedule: &[u32]) -> serde_json::Value {
         json!({"group_commit_max_entries": self.gce, "rotate_every": self.rotate_every, "writers": self.writers,
-               "faults": self.faults.iter().map(|(i, f)| json!([i, f.name()])).collect::<Vec<_>>(), "advances": self.advances, "schedule": schedule})
+               "faults": self.faults.iter().map(|(i, f)| json!([i, f.name()])).collect::<Vec<_>>(), "advances": self.advances, "shutdown": self.shutdown, "schedule": schedule})
     }
     fn shape(&self) -> String {
         format!(
-            "gce={} rotate={} faults=[{}]",
+            "gce={} rotate={} faults=[{}]{}",
             if self.gce == 1 { "1" } else { ">1" },
             match self.rotate_every { 0 => "never", 1 => "every-entry", _ => "every-2nd" },
-            self.faults.iter().map(|(_, f)| f.name()).collect::<Vec<_>>().join(",")
+            self.faults.iter().map(|(_, f)| f.name()).collect::<Vec<_>>().join(","),
+            if self.shutdown { " +shutdown" } else { "" }
         )
     }
 }
@@ -122,6 +125,10 @@ fn run_once(sc: &Scenario, ch: &mut Chooser) -> Outcome {
                     false,
                 );
                 ids.push(id);
+            }
+            if sc.shutdown {
+                let h = handle.clone();
+                sched.add("closer", Box::pin(async move { h.shutdown().await }), false);
             }
             drop(handle);
             let r = sched.run_to_completion(ch, 5_000).await;
@@ -208,6 +215,7 @@ fn main() {
                 (f[0].as_u64().unwrap() as usize, k)
             }).collect(),
             advances: r["advances"].as_u64().unwrap() as u32,
+            shutdown: r["shutdown"].as_bool().unwrap_or(false),
         };
         let schedule: Vec<u32> = r["schedule"].as_array().unwrap().iter().map(|x| x.as_u64().unwrap() as u32).collect();
         let mut ch = polex::replay_prefix(&schedule);
@@ -238,8 +246,10 @@ fn main() {
     for gce in [1usize, 2, 8] {
         for rotate_every in [1usize, 2, 0] {
             for w in &writer_sets {
-                bases.push(Scenario { gce, rotate_every, writers: w.clone(), faults: vec![], advances: 2 });
+                bases.push(Scenario { gce, rotate_every, writers: w.clone(), faults: vec![], advances: 2, shutdown: false });
             }
+            // graceful shutdown racing with two writers (the last batch is flushed by the shutdown path)
+            bases.push(Scenario { gce, rotate_every, writers: vec![1, 1], faults: vec![], advances: 2, shutdown: true });
         }
     }
     // fault plans: every single fault position x kind (quick), plus all pairs (thorough) over the first
@@ -310,7 +320,7 @@ fn main() {
     let coverage = json!({
         "evaluations": execs,
         "distinct_nontrivial": distinct,
-        "rule": "scenario = (group_commit_max_entries in {1,2,8}) x (rotation after every entry / every 2nd / never) x (writer tasks with 1-2 sequential write_durable calls) x fault plan (none; every single I/O-call index x {fail, partial append, disk full}; thorough: all pairs for 2 writers); for each scenario every poll-level schedule of writers, the real WalActor and <=2 clock advances of group_commit_max_wait within the delay bound; an execution is non-trivial/distinct when its (I/O log, results, ack instants) differs from earlier ones of the scenario - for each such execution EVERY crash instant (I/O-log prefix, files cut to last successful sync) is recovered with the real WalRotator",
+        "rule": "scenario = (group_commit_max_entries in {1,2,8}) x (rotation after every entry / every 2nd / never) x (writer tasks with 1-2 sequential write_durable calls; also two writers racing with a graceful shutdown request) x fault plan (none; every single I/O-call index x {fail, partial append, disk full}; thorough: all pairs for 2 writers); for each scenario every poll-level schedule of writers, the real WalActor and <=2 clock advances of group_commit_max_wait within the delay bound; an execution is non-trivial/distinct when its (I/O log, results, ack instants) differs from earlier ones of the scenario - for each such execution EVERY crash instant (I/O-log prefix, files cut to last successful sync) is recovered with the real WalRotator",
         "scenarios": scenarios.len(),
         "schedules_executed": execs,
         "distinct_io_histories_crash_checked": distinct,
